@@ -153,6 +153,8 @@ struct Sock {
     /// every event frame written to the runtime, in order
     events_sent: Vec<(u64, LOp)>,
     requests: Vec<(u64, String, String)>, // (step, kind, body)
+    /// (step, lane state) at every `synced` the lane wrote
+    synced_sent: Vec<(u64, LaneState)>,
     unlinked_sent: Option<u64>,
     closed: bool,
 }
@@ -381,6 +383,7 @@ impl World for DlWorld {
             history: vec![(0, LaneState::new())],
             events_sent: vec![],
             requests: vec![],
+            synced_sent: vec![],
             unlinked_sent: None,
             closed: false,
         };
@@ -658,6 +661,10 @@ impl DlWorld {
                         }
                         Out::SyncEvent(op) => self.sock.events_sent.push((step, op.clone())),
                         Out::Unlinked => self.sock.unlinked_sent = Some(step),
+                        Out::Synced => {
+                            let st = self.sock.state.clone();
+                            self.sock.synced_sent.push((step, st));
+                        }
                         _ => {}
                     }
                     self.log(format!("socket -> {:?}", o));
@@ -958,8 +965,16 @@ fn oracle(w: &DlWorld) -> Vec<(String, String)> {
                 window.insert(0, b);
             }
             if any_event_from_lane && !window.iter().any(|st| **st == have) {
+                // classified cause: the state is the one announced by a `synced` that the lane wrote
+                // before this consumer attached (a synced answering somebody else's earlier @sync)
+                let stale = w.sock.synced_sent.iter().any(|(s, st)| *s < att_step && *st == have);
                 add(
-                    format!("dl({}): state at synced is not a state the remote lane was in between attach and synced ({})", k, if want_sync { "consumer asked for sync" } else { "consumer did not ask for sync" }),
+                    format!(
+                        "dl({}): state at synced is not a state the remote lane was in between attach and synced ({}){}",
+                        k,
+                        if want_sync { "consumer asked for sync" } else { "consumer did not ask for sync" },
+                        if stale { " [the state of a synced written before it attached]" } else { "" }
+                    ),
                     format!("consumer {} (attached at {}, synced at {}): holds {:?}; lane states in that window {:?}", ci, att_step, s_step, have, window),
                 );
             }
